@@ -181,7 +181,7 @@ Walk(T, dom, ap, path) ==
 RECURSIVE Reverse(_)
 Reverse(sq) == IF sq = <<>> THEN <<>> ELSE Append(Reverse(Tail(sq)), Head(sq))
 
-(* q = [opt, T, host, path, method].  Scan tries the candidates in walk order:
+(* q = [opt, T, hosts, path, method]; hosts = the add_domain() domains the Host header matches.  Scan tries the candidates in walk order:
    - a resource whose path matches and which has a route for the method wins;
    - a resource whose path matches but not the method contributes its methods to the 405 set;
    - a prefixed sub-application reached through its index key takes over ("further
@@ -207,12 +207,12 @@ ResolveApp(q, dom, ap) ==
     LET w == Walk(q.T, dom, ap, q.path) IN
     Scan(q, dom, ap, IF q.opt.mut = "shortfirst" THEN Reverse(w) ELSE w, {})
 
-(* add_domain: a domain sub-application whose domain equals the Host header takes the
+(* add_domain: a domain sub-application whose domain matches the Host header takes the
    request over (first registered wins).  DomainFirst: before the index (code), else after
    an unsuccessful index lookup (docs step 3).                                            *)
 ResolveRoot(q) ==
     LET idx == ResolveApp(q, "", <<>>)
-        doms == SortedSeq({i \in DOMAIN q.T : IsDomHead(q.T, i) /\ q.T[i].domain = q.host})
+        doms == SortedSeq({i \in DOMAIN q.T : IsDomHead(q.T, i) /\ q.T[i].domain \in q.hosts})
     IN IF doms = <<>> THEN idx
        ELSE LET dr == ResolveApp(q, q.T[doms[1]].domain, <<>>) IN
             IF q.opt.df THEN dr
@@ -222,9 +222,36 @@ ResolveRoot(q) ==
 
 \* opt.mut: spec-level mutants for the self-test only ("" = the rule)
 Ideal(df) == [df |-> df, merge |-> TRUE, deadq |-> FALSE, mut |-> ""]
-ResolveOpt(opt, T, host, path, method) ==
-    ResolveRoot([opt |-> opt, T |-> T, host |-> host, path |-> path, method |-> method])
-Resolve(T, host, path, method) == ResolveOpt(Ideal(DomainFirst), T, host, path, method)
+ResolveOpt(opt, T, hosts, path, method) ==
+    ResolveRoot([opt |-> opt, T |-> T, hosts |-> hosts, path |-> path, method |-> method])
+\* host given as the (single) domain it matches, or any other string
+Resolve(T, host, path, method) == ResolveOpt(Ideal(DomainFirst), T, {host}, path, method)
+
+(* ------------------------------------------------------------------ Host header vs domain rule
+   add_domain(domain): "if request.headers['host'] matches the pattern domain".  Both are
+   host[:port] texts (code points).  The rule is normalised when registered (lower case,
+   trailing dots dropped, the default port 80 dropped); the header matches iff the host
+   names are equal ignoring case and the ports are equal, an absent port and the rule's
+   dropped :80 being the same.  Whether a header that spells ":80" explicitly matches a
+   port-less rule is not documented: both answers are permitted (p80).                   *)
+LowerCp(s) == [j \in DOMAIN s |-> IF s[j] \in 65..90 THEN s[j] + 32 ELSE s[j]]
+RECURSIVE StripDots(_)
+StripDots(s) == IF s # <<>> /\ s[Len(s)] = 46 THEN StripDots(Take(s, Len(s) - 1)) ELSE s
+LastColon(s) == LET C == {j \in DOMAIN s : s[j] = 58} IN
+                IF C = {} THEN 0 ELSE CHOOSE j \in C : \A k \in C : k <= j
+SplitPort(s) ==
+    LET k == LastColon(s) IN
+    IF k > 0 /\ k < Len(s) /\ AllDigits(Drop(s, k))
+    THEN [name |-> Take(s, k - 1), port |-> Drop(s, k)]
+    ELSE [name |-> s, port |-> <<>>]
+Port80 == <<56, 48>>
+RuleOf(cp) == LET r == SplitPort(LowerCp(StripDots(cp))) IN
+              [name |-> r.name, port |-> IF r.port = Port80 THEN <<>> ELSE r.port]
+HostMatches(rulecp, hostcp, p80) ==
+    LET r == RuleOf(rulecp)
+        h == SplitPort(LowerCp(hostcp))
+    IN /\ h.name = r.name
+       /\ h.port = r.port \/ (p80 /\ h.port = Port80 /\ r.port = <<>>)
 
 VarSet(vs) == Range(vs)
 SameResult(a, b) == a.t = b.t /\ a.i = b.i /\ VarSet(a.vars) = VarSet(b.vars) /\ a.allowed = b.allowed
